@@ -26,7 +26,7 @@ def run(ck):
     build_harness()
     rng = Rng(ck.seed, "C16")
     S = protocol.Script()
-    S.cmd("pp", "pp", 1 << 11, 3)
+    S.cmd("pp", "pp", (1 << 12) + 8, 3)
     kinds_sets = [["arith"], ["range"], ["logic"], ["range", "logic"], ["trunc"], ["decomp", "pub"], ["pub"], ["sel", "bool"],
                   ["arith", "range", "logic", "trunc", "decomp", "pub", "sel", "bool"]]
     cases = []
@@ -43,7 +43,7 @@ def run(ck):
     for ks in kinds_sets:
         for rep in range(1 if quick else 6):
             add("gadgets " + "+".join(ks), protocol.gadget_circuit(rng, kinds=ks, size_hint=rng.randrange(0, 5)))
-    for c in ([4, 5, 8, 13, 16, 17, 60] if quick else range(4, 70)):
+    for c in ([4, 5, 8, 13, 16, 17, 60, 1024, 2100] if quick else list(range(4, 70)) + [255, 256, 257, 1024, 2100, 4096]):
         add(f"size {c}", protocol.filler(c - 4, rng))
     add("F1: q_M loses its top coefficient", f1_circuit(rng), prove=False)
     add("PI first/last", ["pub " + hx(rng.scalar())] + protocol.filler(10, rng) + ["pub 0"])
@@ -118,7 +118,7 @@ def run(ck):
         if r.startswith("OK") and res2[va].startswith("OK"):
             ck.notes.append(f"mutated proof accepted by the verifier at byte {pos} (see C03)")
     return ck.finish(level="proof",
-        rule="circuits using every subset pattern of gate families (incl. range without logic, single families), sizes 4..70, the F1 circuit whose interpolated q_M loses its top coefficient, public inputs on first/last rows; prover and verifier through bytes: bytes equal after re-encoding, decoded prover yields the same proof from the same scripted randomness, decoded verifier accepts the same proofs and treats bit-flipped proofs identically; public parameters of several degrees; every accepted 1008-byte mutant re-encodes to itself; the alias encoding v + r of every evaluation must not decode",
+        rule="circuits using every subset pattern of gate families (incl. range without logic, single families), sizes 4..70 and 1024, 2100 (thorough also 255..257, 4096), the F1 circuit whose interpolated q_M loses its top coefficient, public inputs on first/last rows; prover and verifier through bytes: bytes equal after re-encoding, decoded prover yields the same proof from the same scripted randomness, decoded verifier accepts the same proofs and treats bit-flipped proofs identically; public parameters of several degrees; every accepted 1008-byte mutant re-encodes to itself; the alias encoding v + r of every evaluation must not decode",
         assumptions=["G1/G2/scalar codecs of dusk-bls12_381 are canonical and round-trip (their contract)"],
         checker_cmd=proofgate.CHECKER_CMD, trusted_base=proofgate.TRUSTED)
 
